@@ -43,7 +43,7 @@ PROPS["C20"] = {
     "level_text": "Proof + correspondence. Proved in full on the whole model stack for every reader script, every (cap(buf), maxSize) incl. 0/negative/absent, both entry points, every early stop "
                   "(read_run_bounded): no Panic outcome (ErrAdvanceTooFar, bufio's empty-token panic) and no OutOfFuel, bytes pulled = bytes consumed by tokens + bytes buffered and bytes buffered <= "
                   "L = max(maxSize, cap(buf)) (default 65536) at every point and at the end. Also proved in full, without any size hypothesis (C20_intact = read_run_gen): the yields are either the whole "
-                  "interpretation Whatwg.interp of the concatenated stream, or - for an offset in the oracle's own toolong_points L (stream_needs s) - the specification's yields for the stream up to that offset "
+                  "interpretation Whatwg.interp of the concatenated stream (and then every group fits in the generous reading, may_complete), or - for an offset in the oracle's own toolong_points L (stream_needs s) - the specification's yields for the stream up to that offset "
                   "followed by ErrTooLong; never a truncated or partial event, nothing lost before the oversized group. fitsb L s -> no ErrTooLong (C20_fits_complete, C20_fits_no_toolong_points, "
                   "C20_fits_parser_err). The one-byte slack between strict and generous fit (the blank line that completed the previous group is CR LF and the LF arrives in a later read) is part of the "
                   "statement (toolong_points uses need_lo / need_hi) and is real behaviour of the code. The oracle holds_parse_c20 checks the same statement on the real code.",
